@@ -570,6 +570,18 @@ class InstGen:
             kw.append(["type", S("{urn:t}T") if r.random() < 0.7 else NONE])
         return {"t": "obj", "c": DERIVED, "kw": kw}
 
+    def no_value_collision(self, f, v):
+        """Generator assumption (see enum_member_value): a mixed-in enum value never == a field default
+        by value.  The empty value of an IntFlag class is the int 0, so `False == Kind(0)`, `0.0 == Kind(0)`
+        ... hold in Python and the serializer (rightly) skips the field, while the model compares flag
+        values only with flag values.  As the direct value of a field with a numeric default it is
+        therefore put inside a list (list items are never compared with a default)."""
+        d = f["default"]
+        if (v.get("t") == "flag" and v["v"] == "0" and d is not None
+                and d[1]["t"] in ("bool", "int", "float", "dec")):
+            return {"t": "list", "v": [v]}
+        return v
+
     def field_value(self, f, depth):
         r = self.r
         kind, arg = f["kind"]
@@ -617,7 +629,7 @@ class InstGen:
                 continue
             required = f["default"] is None
             if required or r.random() < 0.6:
-                kw.append([f["name"], self.field_value(f, depth)])
+                kw.append([f["name"], self.no_value_collision(f, self.field_value(f, depth))])
         o = {"t": "obj", "c": [c["mod"], c["qual"]], "kw": kw}
         if post:
             o["set"] = post
